@@ -61,12 +61,16 @@ func signedImportNoSize(re *regexp.Regexp, input string) (*BMNumber, error) {
 }
 
 func (d Signed) ExportString(n *BMNumber) (string, error) {
-	if n == nil || len(n.number) != 8 {
+	if n == nil || len(n.number) == 0 || len(n.number) > 8 || n.bits < 1 || n.bits > 64 {
 		return "", errors.New("signed number cannot be exported")
 	}
 	var s uint64
-	for i := 0; i < 8; i++ {
+	for i := 0; i < len(n.number); i++ {
 		s |= uint64(n.number[i]) << (8 * uint(i))
+	}
+	// two's complement on n.bits bits: extend the sign of a value narrower than 64 bits
+	if n.bits < 64 && s&(uint64(1)<<uint(n.bits-1)) != 0 {
+		s |= ^uint64(0) << uint(n.bits)
 	}
 	return "0s" + strconv.FormatInt(int64(s), 10), nil
 }
